@@ -183,3 +183,184 @@ theorem opreduce_chain_computes (special : Option (Op × Op × Int)) (op : Op) (
           exact hf fuel r (by show exec P code fuel ⟨(s.set t v).set t u, pc + 1 + rest.length⟩ w2 = some r; rw [hss, show pc + 1 + rest.length = pc + (rest.length + 1) by omega]; exact hr)
 
 end JanetModel.Spec
+
+namespace JanetModel.Spec
+open JanetModel.Gen.Bytecode JanetModel.Gen.Cfuns JanetModel.Bytecode.VM
+
+/-! ### `compreduce`: the comparison chain with its conditional jumps to the end
+
+`cmp t a0 r1 ; jmp(n)o t END ; cmp t r1 r2 ; jmp(n)o t END ; ... ; cmp t r(n-2) last ; END:` - the operands between the first and the
+last are registers (a constant there is first loaded into a scratch register by emit.c: not modelled); the last may be an immediate. -/
+
+/-- `compreduce` for `args = a :: mids ++ [last]` (at least two operands) -/
+def emitCompreduceCode (op : Op) (opim : Option Op) (invert : Bool) (t : Nat) : Nat → List Nat → RArg → List Instr
+  | a, [], last => [accInstr op opim t a last]
+  | a, m :: mids, last =>
+    accInstr op opim t a (.reg m) :: mkAI (if invert then .jumpIf else .jumpIfNot) t (2 * mids.length + 2 : Nat) ::
+      emitCompreduceCode op opim invert t m mids last
+
+theorem emitCompreduceCode_length (op : Op) (opim : Option Op) (invert : Bool) (t a : Nat) (mids : List Nat) (last : RArg) :
+    (emitCompreduceCode op opim invert t a mids last).length = 2 * mids.length + 1 := by
+  induction mids generalizing a with
+  | nil => rfl
+  | cons m mids ih => simp only [emitCompreduceCode, List.length_cons, ih]; omega
+
+variable (P : Prims)
+
+/-- value-level meaning of that chain, following the recursion of the emitter -/
+def cmpSem (op : Op) (opim : Option Op) (invert : Bool) (s : List P.V) : P.V → List Nat → RArg → M P P.V
+  | a, [], last => stepInline P op opim a (argOf P s last)
+  | a, m :: mids, last =>
+    M.bind (stepInline P op opim a (argOf P s (.reg m))) fun v =>
+      if P.truthy v == invert then M.pure v else cmpSem op opim invert s (s.getD m P.nil) mids last
+
+/-- it is `compreduce`'s value-level model `goInline` on the operand list -/
+theorem cmpSem_eq_goInline (op : Op) (opim : Option Op) (invert : Bool) (s : List P.V) (a : P.V) (m : Nat) (mids : List Nat) (last : RArg) :
+    cmpSem P op opim invert s a (m :: mids) last =
+      goInline P op opim invert a (argOf P s (.reg m)) (mids.map (fun r => argOf P s (.reg r)) ++ [argOf P s last]) := by
+  induction mids generalizing a m with
+  | nil => simp only [cmpSem, List.map_nil, List.nil_append, goInline, argOf]
+  | cons m' mids ih =>
+    simp only [cmpSem, List.map_cons, List.cons_append, goInline]
+    congr 1
+    funext v
+    rw [← ih]
+    simp only [cmpSem, argOf]
+
+theorem step_jumpIfNot' (i : Instr) (f : Frame P) (h : i.op = .jumpIfNot) :
+    step P i f = some (cont' P (if P.truthy (getSlot P f i.A) then next P f else jumpBy P f i.ES)) := step_jumpIfNot P i f h
+
+/-- the conditional jump after a comparison leaves the chain exactly when `truthy t == invert` -/
+theorem cmp_jump_step (invert : Bool) (s : List P.V) (pc t : Nat) (k : Nat) (ht : t < 256) (hk : k < 32768) (hlen : t < s.length) (v : P.V) :
+    step P (mkAI (if invert then .jumpIf else .jumpIfNot) t (k : Nat)) ⟨s.set t v, pc⟩ =
+      some (cont' P (if P.truthy v == invert then ⟨s.set t v, pc + k⟩ else ⟨s.set t v, pc + 1⟩)) := by
+  have hA : ∀ o, (mkAI o t (k : Nat)).A = t := fun o => mkAI_A o t _ ht
+  have hE : ∀ o, (mkAI o t (k : Nat)).ES = (k : Int) := fun o => mkAI_ES o t _ ht (by omega)
+  have hj : (Int.ofNat pc + ((k : Nat) : Int)).toNat = pc + k := by
+    simp only [Int.ofNat_eq_natCast]
+    omega
+  cases invert with
+  | true =>
+    simp only [if_true]
+    rw [step_jumpIf P _ _ rfl]
+    simp only [getSlot, hA, hE, getD_set_self P s t v hlen, next, jumpBy, hj]
+    cases P.truthy v <;> simp
+  | false =>
+    simp only [Bool.false_eq_true, if_false]
+    rw [step_jumpIfNot P _ _ rfl]
+    simp only [getSlot, hA, hE, getD_set_self P s t v hlen, next, jumpBy, hj]
+    cases P.truthy v <;> simp
+
+/-- ★ the whole chain `compreduce` emits for `a :: mids ++ [last]` - comparisons into the target register with a conditional jump to the
+    end after every comparison but the last - computes the value-level model (`goInline`): the result of the first comparison whose
+    truthiness equals `invert`, else of the last one; operands are compared left to right and nothing after the deciding comparison runs.
+    The first operand may live in the target; the others must not (`reduce_target(opts, args, 1)`). -/
+theorem cmp_chain_computes (op : Op) (opim : Option Op) (invert : Bool) (hop : IsBinOp P op) (himm : ∀ oi, opim = some oi → IsImmOp P oi)
+    (code : List Instr) (t : Nat) (ht : t < 256) (mids : List Nat) (last : RArg)
+    (hm : ∀ r ∈ mids, r < 256 ∧ r ≠ t) (hl : last.ok opim ∧ last.avoids t) (hsz : mids.length < 16000)
+    (s : List P.V) (hlen : t < s.length) (pc a : Nat) (ha : a < 256)
+    (hat : HasAt code pc (emitCompreduceCode op opim invert t a mids last)) :
+    Computes P code s pc (2 * mids.length + 1) (cmpSem P op opim invert s (s.getD a P.nil) mids last) (fun v => s.set t v)
+      (pc + (2 * mids.length + 1)) := by
+  induction mids generalizing s pc a with
+  | nil =>
+    intro w
+    have hc := hat.head
+    have hs := acc_step P op opim hop himm s pc t a last ht ha hl.1
+    simp only [cmpSem, List.length_nil, Nat.mul_zero, Nat.zero_add]
+    cases hb : stepInline P op opim (s.getD a P.nil) (argOf P s last) w with
+    | mk res w' =>
+      cases res with
+      | error e =>
+        intro fuel
+        rw [exec_succ P code fuel ⟨s, pc⟩ w _ _ hc hs]
+        simp only [M.bind, hb]
+      | ok v =>
+        intro fuel r hr
+        rw [exec_succ P code fuel ⟨s, pc⟩ w _ _ hc hs]
+        simp only [M.bind, hb, cont', M.pure]
+        exact hr
+  | cons m mids ih =>
+    intro w
+    have hmm := hm m List.mem_cons_self
+    have hc0 := hat.head
+    have hc1 := hat.tail.head
+    have hs0 := acc_step P op opim hop himm s pc t a (.reg m) ht ha hmm.1
+    simp only [cmpSem, M.bind, List.length_cons]
+    cases hb : stepInline P op opim (s.getD a P.nil) (argOf P s (.reg m)) w with
+    | mk res w' =>
+      cases res with
+      | error e =>
+        intro fuel
+        rw [show fuel + (2 * (mids.length + 1) + 1) = (fuel + 2 * mids.length + 2) + 1 by omega,
+          exec_succ P code _ ⟨s, pc⟩ w _ _ hc0 hs0]
+        simp only [M.bind, hb]
+      | ok v =>
+        dsimp only
+        have hs1 := cmp_jump_step P invert s (pc + 1) t (2 * mids.length + 2) ht (by simp only [List.length_cons] at hsz; omega) hlen v
+        by_cases hv : (P.truthy v == invert) = true
+        · -- early exit: jump to the end
+          simp only [hv, if_true, M.pure]
+          intro fuel r hr
+          rw [show fuel + (2 * (mids.length + 1) + 1) = (fuel + 2 * mids.length + 2) + 1 by omega,
+            exec_succ P code _ ⟨s, pc⟩ w _ _ hc0 hs0]
+          simp only [M.bind, hb, cont', M.pure]
+          rw [show fuel + 2 * mids.length + 2 = (fuel + 2 * mids.length + 1) + 1 by omega,
+            exec_succ P code _ ⟨s.set t v, pc + 1⟩ w' _ _ hc1 hs1]
+          simp only [hv, if_true, cont', M.pure]
+          have : pc + 1 + (2 * mids.length + 2) = pc + (2 * (mids.length + 1) + 1) := by omega
+          rw [this]
+          exact exec_mono P code fuel _ w' r hr _ (by omega)
+        · have hv' : (P.truthy v == invert) = false := by simpa using hv
+          simp only [hv', Bool.false_eq_true, if_false]
+          have ih' := ih (fun r hr => hm r (List.mem_cons_of_mem _ hr)) (by simp only [List.length_cons] at hsz; omega)
+            (s.set t v) (by simpa using hlen) (pc + 2) m hmm.1 hat.tail.tail w'
+          have hcs : cmpSem P op opim invert (s.set t v) ((s.set t v).getD m P.nil) mids last =
+              cmpSem P op opim invert s (s.getD m P.nil) mids last := by
+            rw [getD_set_ne P s t m v hmm.2]
+            have hgen : ∀ (mids : List Nat) (x : P.V), (∀ r ∈ mids, r < 256 ∧ r ≠ t) →
+                cmpSem P op opim invert (s.set t v) x mids last = cmpSem P op opim invert s x mids last := by
+              intro mids
+              induction mids with
+              | nil => intro x _; simp only [cmpSem, argOf_set P s t v last hl.2]
+              | cons m2 mids2 ih2 =>
+                intro x h2
+                have hm2 := h2 m2 List.mem_cons_self
+                simp only [cmpSem, argOf_set P s t v (.reg m2) hm2.2, getD_set_ne P s t m2 v hm2.2]
+                congr 1
+                funext u
+                rw [ih2 _ (fun r hr => h2 r (List.mem_cons_of_mem _ hr))]
+            exact hgen mids _ (fun r hr => hm r (List.mem_cons_of_mem _ hr))
+          rw [hcs] at ih'
+          have hss : ∀ u, (s.set t v).set t u = s.set t u := fun u => by simp
+          revert ih'
+          cases hmres : cmpSem P op opim invert s (s.getD m P.nil) mids last w' with
+          | mk res2 w2 =>
+            cases res2 with
+            | error e =>
+              intro ih' fuel
+              rw [show fuel + (2 * (mids.length + 1) + 1) = (fuel + 2 * mids.length + 2) + 1 by omega,
+                exec_succ P code _ ⟨s, pc⟩ w _ _ hc0 hs0]
+              simp only [M.bind, hb, cont', M.pure]
+              rw [show fuel + 2 * mids.length + 2 = (fuel + 2 * mids.length + 1) + 1 by omega,
+                exec_succ P code _ ⟨s.set t v, pc + 1⟩ w' _ _ hc1 hs1]
+              simp only [hv', Bool.false_eq_true, if_false, cont', M.pure]
+              have := ih' fuel
+              rw [show fuel + (2 * mids.length + 1) = fuel + 2 * mids.length + 1 by omega, show pc + 2 = pc + 1 + 1 by omega] at this
+              exact this
+            | ok u =>
+              intro ih' fuel r hr
+              rw [show fuel + (2 * (mids.length + 1) + 1) = (fuel + 2 * mids.length + 2) + 1 by omega,
+                exec_succ P code _ ⟨s, pc⟩ w _ _ hc0 hs0]
+              simp only [M.bind, hb, cont', M.pure]
+              rw [show fuel + 2 * mids.length + 2 = (fuel + 2 * mids.length + 1) + 1 by omega,
+                exec_succ P code _ ⟨s.set t v, pc + 1⟩ w' _ _ hc1 hs1]
+              simp only [hv', Bool.false_eq_true, if_false, cont', M.pure]
+              have := ih' fuel r (by
+                show exec P code fuel ⟨(s.set t v).set t u, pc + 2 + (2 * mids.length + 1)⟩ w2 = some r
+                rw [hss, show pc + 2 + (2 * mids.length + 1) = pc + (2 * (mids.length + 1) + 1) by omega]
+                exact hr)
+              rw [show fuel + (2 * mids.length + 1) = fuel + 2 * mids.length + 1 by omega, show pc + 2 = pc + 1 + 1 by omega] at this
+              exact this
+
+end JanetModel.Spec
